@@ -27,6 +27,7 @@ type c15poll struct {
 	at      time.Duration // instant the answer was given
 	err     bool          // injected error
 	aborted bool          // the wallet's own context ended the poll before the answer was due
+	stale   bool          // answered by a server one transaction behind (value = current - 1)
 	value   uint32
 }
 
@@ -49,6 +50,7 @@ type chainsim struct {
 	sendAt        time.Duration
 	polls         []c15poll
 	pollErr       map[int]bool
+	pollStale     map[int]bool
 	pollErrKind   map[int]int // 0 opaque error, 1 wraps context.DeadlineExceeded (backend's own timeout), 2 context.Canceled
 	maxLatency    time.Duration
 }
@@ -105,6 +107,12 @@ func (c *chainsim) GetSeqno(ctx context.Context, account ton.AccountID) (uint32,
 		return 0, errors.New("chainsim: injected GetSeqno error")
 	}
 	v := c.curSeqno()
+	if c.pollStale[i] && v > 0 {
+		// a lite server that has not applied the account's latest transaction yet
+		c.w.Probe("poll-answered-by-lagging-server")
+		c.polls = append(c.polls, c15poll{start: started, at: c.w.Now(), value: v - 1, stale: true})
+		return v - 1, nil
+	}
 	c.polls = append(c.polls, c15poll{start: started, at: c.w.Now(), value: v})
 	return v, nil
 }
@@ -358,6 +366,13 @@ func genC15(seed uint64, index int, tier string) *run.Plan {
 	if g.Intn(10) == 0 {
 		p.Faults = append(p.Faults, run.Fault{Kind: "poll-err-all"})
 	}
+	if g.Intn(4) == 0 {
+		// some polls are answered by a server that is one transaction behind: no news, not an advance
+		n := 1 + g.Intn(3)
+		for i := 0; i < n; i++ {
+			p.Faults = append(p.Faults, run.Fault{Kind: "poll-stale", A: g.Intn(6)})
+		}
+	}
 	if p.P["state"] == 2 && g.Intn(6) == 0 {
 		// the chain party answers with an active account whose data cell is not a wallet's data (cut short, empty,
 		// or absent): there is no stored seqno to take
@@ -387,7 +402,7 @@ func execC15(t *testing.T, w *core.World, p *run.Plan, r *run.Result) {
 
 	// ---------- address half (A1-A3): input sampling that every simulated send needs anyway ----------
 	want := id.address()
-	chain := &chainsim{w: w, p: p, pollErr: map[int]bool{}, pollErrKind: map[int]int{}, includeAt: -1}
+	chain := &chainsim{w: w, p: p, pollErr: map[int]bool{}, pollStale: map[int]bool{}, pollErrKind: map[int]int{}, includeAt: -1}
 	var wl wallet.Wallet
 	var newErr error
 	func() {
@@ -411,7 +426,9 @@ func execC15(t *testing.T, w *core.World, p *run.Plan, r *run.Result) {
 	if a2, err := wallet.GenerateWalletAddress(pub, id.ver, id.netPtr(), id.wc, id.subPtr()); err != nil || a2 != want {
 		w.Violate("C15.A2", "C15.A2|GenerateWalletAddress|"+fam, fmt.Sprintf("%s: GenerateWalletAddress=%s err=%v, want %s", id, a2.ToRaw(), err, want.ToRaw()))
 	}
-	if si, err := wallet.GenerateStateInit(pub, id.ver, id.netPtr(), id.wc, id.subPtr()); err != nil {
+	si, err := wallet.GenerateStateInit(pub, id.ver, id.netPtr(), id.wc, id.subPtr())
+	handedOut := si
+	if err != nil {
 		w.Violate("C15.A2", "C15.A2|GenerateStateInit|"+fam, fmt.Sprintf("%s: GenerateStateInit err=%v", id, err))
 	} else {
 		cell := boc.NewCell()
@@ -474,6 +491,17 @@ func execC15(t *testing.T, w *core.World, p *run.Plan, r *run.Result) {
 			w.Violate("C15.A1", "C15.A1|address|"+c15family(vv.ver), fmt.Sprintf("%s: GenerateWalletAddress=%s, hand-built=%s", vv, a.ToRaw(), exp.ToRaw()))
 		}
 	}
+	// a state-init that was handed out still is this wallet's initial state after other wallets were derived
+	if err == nil {
+		cell := boc.NewCell()
+		if e := tlb.Marshal(cell, handedOut); e == nil {
+			h := fromLib(cell)
+			h.compute()
+			if h.hash != [32]byte(want.Address) {
+				w.Violate("C15.A2", "C15.A2|state-init-changed-after-return|"+fam, fmt.Sprintf("%s: the state-init returned by GenerateStateInit hashed to the wallet's address when it was returned and hashes to %x after addresses of other wallets were generated", id, h.hash))
+			}
+		}
+	}
 	if fam == "v1v2" {
 		// message building is declared unimplemented for this family: address side only
 		w.Probe("v1v2-address-only")
@@ -508,6 +536,8 @@ func execC15(t *testing.T, w *core.World, p *run.Plan, r *run.Result) {
 		case "poll-err":
 			chain.pollErr[f.A] = true
 			chain.pollErrKind[f.A] = f.B
+		case "poll-stale":
+			chain.pollStale[f.A] = true
 		case "poll-err-all":
 			for i := 0; i < 64; i++ {
 				chain.pollErr[i] = true
@@ -748,7 +778,7 @@ func execC15(t *testing.T, w *core.World, p *run.Plan, r *run.Result) {
 	advancedAt := chain.includeAt
 	if advancedAt >= 0 {
 		for _, pl := range chain.polls {
-			if pl.err && pl.at >= advancedAt {
+			if (pl.err || pl.stale) && pl.at >= advancedAt {
 				errAfterAdvance = true
 			}
 		}
